@@ -62,6 +62,20 @@ theorem c07_queue_has_polling (qcap : Nat) (ops : List Op) (x : Side) :
   have h := (run_inv _ ops x 0 (inv_init qcap x 0)).core
   exact h.g1 (h.g2 hq)
 
+/-- Close never overtakes data across the two channels (repaired code): while data of stream `j` is still in the shared
+    queue, no event for `j` — in particular no close notification — sits on the connection ahead of the polling event
+    that will drain that data.  (Inside one channel order is FIFO by construction.) -/
+theorem c07_close_not_ahead_of_queued_data (qcap : Nat) (ops : List Op) (x : Side) (j : Nat) :
+    let s := run { qcap := qcap } ops
+    (x, j) ∉ s.recreated → qdata j (s.ch x).q ≠ [] → ∀ ev ∈ beforePoll (s.ch x).k, ev ≠ .close j ∧ ∀ m, ev ≠ .fb j m := by
+  intro s hr hq ev hev
+  have h := (run_inv _ ops x j (inv_init qcap x j)).core
+  have hqf : qFor j (s.ch x).q ≠ [] := fun h0 => hq (qdata_nil_of_qFor_nil j _ h0)
+  have := h.ij hr hqf ev hev
+  constructor
+  · intro he; subst he; simp [evFor] at this
+  · intro m he; subst he; simp [evFor] at this
+
 -- non-vacuity: one stream, a shared-memory message, then fall-back messages, delivered in steps
 example :
     let s := run { qcap := 4 } [.open_ .a, .flush .a 2 false, .flush .a 2 true, .flush .a 2 false, .deliver .b, .deliver .b]
